@@ -43,6 +43,18 @@ func inspectNested(o Object, depth int) string {
 	return o.Inspect()
 }
 
+// jsonNested returns the JSON form of a member of an array, or hash, which is
+// itself the given number of containers deep.
+func jsonNested(o JSONAble, depth int) (string, error) {
+	switch v := o.(type) {
+	case *Array:
+		return v.json(depth)
+	case *Hash:
+		return v.json(depth)
+	}
+	return o.JSON()
+}
+
 const (
 	ARRAY   = "ARRAY"
 	BOOLEAN = "BOOLEAN"
